@@ -42,6 +42,22 @@ theorem joinComps_append (a b : List Str) (hb : b ≠ []) :
     have h2 : (c :: cs) ++ [joinComps b] = c :: (cs ++ [joinComps b]) := rfl
     rw [h1, h2, joinComps_cons c _ (by simp [hb]), joinComps_cons c _ (by simp), ih]
 
+/-! ## lying below a directory, component-wise -/
+
+/-- the independent specification of "the path `p` lies below the directory `cwd`": the COMPONENTS
+    of `cwd` are a proper prefix of the components of `p`.  Component-wise, not character-wise:
+    `data` is an ancestor of `data/a.txt` and of `data/raw/r.txt`, not of `data2/b.txt`,
+    `data-old/c.txt`, `data.bak/d.dat`, `datafile.txt` nor of `data` itself. -/
+def properAncestor (cwd : List Str) (p : Str) : Bool :=
+  cwd.isPrefixOf (splitSlash p) && decide (cwd.length < (splitSlash p).length)
+
+/-- NOT the code: the tempting shortcut for "no targets, not at the root" that tests the recorded
+    path STRINGS (`p.starts_with(cwd) && p != cwd`) instead of going through the glob `cwd/**`.
+    Kept only to state (`C18_string_prefix_selection_differs`) that it is a different function on
+    sibling names that extend the name of the current directory. -/
+def strPrefixSelect (cwd : List Str) (paths : List Str) : List Str :=
+  paths.filter (fun p => (cwdStr cwd).isPrefixOf p && p != cwdStr cwd)
+
 /-! ## characters of a joined path -/
 
 /-- a well-formed current directory: non-empty components without `/` -/
